@@ -18,4 +18,6 @@ def run(rep, fb, tier):
     from ..rules import pybind as _pb, pyrules as _pr2
     _pb.rule_py_bindings(rep)
     _pr2.rule_py_call_signature(rep)
+    from ..rules import pyrules as _pr4
+    _pr4.rule_py_defassign(rep)
     rep.units = fb.units + ["src/awkward/_connect/_numba/*.py, _libawkward.py (ast)"]
